@@ -237,6 +237,7 @@ Proof.
   unfold leaf_class. intros Hc Hst.
   destruct (vr_comments vr) eqn:Ecm; [discriminate|].
   destruct (has_null_enum w) eqn:Een; [discriminate|].
+  destruct (veq w (lf_def lf) && negb (leaf_stable_b yl lf w)) eqn:E8; [discriminate|].
   destruct (vr_skip_none vr && is_vnone w && negb (is_vnone (lf_def lf))) eqn:E1; [discriminate|].
   destruct (N.eqb (skipdef_class yl vr lf w) 0) eqn:Esd; simpl in Hc;
     [apply N.eqb_eq in Esd|apply N.eqb_neq in Esd; congruence].
